@@ -367,3 +367,11 @@ def run(repo: Repo, rep: Report, tier: str) -> None:
     from .c13 import parser_fold_rule
 
     parser_fold_rule(repo, rep, "C12.R16")
+    from .c04 import struct_rw_fold_rule
+
+    # enum members and enum bit-fields inside structures are read and written through the structure reader / writer
+    struct_rw_fold_rule(repo, rep, "C12.R17", 3 if tier == "thorough" else 2)
+    from .c10 import expression_fold_rule
+
+    # member values written as expressions (A = 1 << 4, B = A | 3) are numbered by the expression evaluator
+    expression_fold_rule(repo, rep, "C12.R18")
